@@ -111,4 +111,24 @@ def pointerConds : List String :=
   ["pointer != \"\" && !strings.HasPrefix(pointer, \"/\")", "strings.HasPrefix(pointer, \"/\"+document.ServiceProperty)",
    "strings.HasPrefix(pointer, \"/\"+document.PublicKeyProperty)"]
 
+/-! ### composer (doccomposer/composer.go) -/
+
+def composerDispatch : List (String × String) :=
+  [("replace", "applyRecover"), ("ietf-json-patch", "applyJSON"), ("add-public-keys", "applyAddPublicKeys"),
+   ("remove-public-keys", "applyRemovePublicKeys"), ("add-services", "applyAddServiceEndpoints"),
+   ("remove-services", "applyRemoveServiceEndpoints"), ("add-also-known-as", "applyAddAlsoKnownAs"),
+   ("remove-also-known-as", "applyRemoveAlsoKnownAs")]
+/-- operations are applied one at a time on re-serialised bytes -/
+def applyJSONShape : List String :=
+  ["json.Marshal(entry)", "jsonpatch.DecodePatch(bytes)", "doc.Bytes()", "applyJSONPatchOperation(docBytes, jsonPatches[i:i+1])"]
+/-- C12: ApplyPatches starts by deep-copying its input through a JSON round trip -/
+def applyPatchesFirst : String := "result, err := deepCopy(doc)"
+def deepCopyCalls : List String := ["json.Marshal(doc)", "json.Unmarshal(bytes, &result)"]
+/-- C19: the deferred closure itself calls recover() -/
+def recoverGuard : String := "r := recover(); r != nil"
+/-- C14: PatchesFromDocument -/
+def fromDocumentCases : List (String × String) :=
+  [("publicKey", "NewAddPublicKeysPatch"), ("service", "NewAddServiceEndpointsPatch"), ("alsoKnownAs", "NewAddAlsoKnownAs")]
+def jsonPatchAddTemplate : String := "{ \"op\": \"add\", \"path\": \"/%s\", \"value\": %s }"
+
 end Sidetree.Expected
